@@ -1345,9 +1345,9 @@ class Simplifier:
         if not _is_constant(other):
             return expression
 
-        # Find the first constant arg
+        # Find the first constant arg that COALESCE can actually return (a NULL literal is skipped)
         for arg_index, arg in enumerate(coalesce.expressions):
-            if _is_constant(arg):
+            if _is_constant(arg) and not isinstance(arg, exp.Null):
                 break
         else:
             return expression
